@@ -3,7 +3,8 @@ SPEC = dict(
     model="C08",
     rule="random sequences (4-17 calls) of new/transfer/eject/upgrade/checkpoint (+ some write/solicit/forget/info) on the REAL host-call "
          "functions PVM.AccumulateOmegas[...] after the incoming-transfer credit of the real PVM.Psi_A, from consistent funded partial states "
-         "with total supply < 2^64; code lengths / amounts drawn around the caller's free balance, its whole balance, 2^32, 2^63, 2^64-1; "
+         "with total supply < 2^64; 1 sequence in 5 has a caller whose recorded counters stand for a huge footprint (threshold near 2^32, 2^63, "
+         "2^64, or saturated; only counter-reading calls are run on it); code lengths / amounts drawn around the caller's free balance, its whole balance, 2^32, 2^63, 2^64-1; "
          "compared per call with the proved specification: register 7, every balance, every deferred transfer, recorded and recomputed "
          "items/octets of every account, and at the end both contexts in full with exact totals; non-trivial = the sequence ran; distinct by input",
     assumptions=["the generator draws each call's operands against the live state of the implementation (cases are still closed inputs)",
